@@ -1,6 +1,6 @@
 """C03 a pattern accepts exactly the headers of its short/long-form language."""
 import glob, os, re
-import vf, spec
+import vf, spec, gen
 
 ID = 'C03'
 FLAVORS = ['default']
@@ -158,3 +158,41 @@ def streams(tier, rng):
             return c
         return c if h[:2].upper().lstrip(':') == p[:2].upper().lstrip('[:') else None
     yield {'name': 'match', 'coqcheck': True, 'cases': cases, 'oracle': oracle, 'nontrivial': nontrivial}
+    # the same question asked through the parser: a one-entry table and the header as a message (findCommandHeader + matchCommand)
+    dcases, dinfo = [], {}
+    for p in pats[:: (3 if tier == 'quick' else 1)]:
+        if not spec.unambiguous(p):
+            continue
+        for h in spellings(rng, p)[:6] + [None]:
+            if h is None:
+                # long forms with multi-digit suffixes: the header is longer than the pattern text
+                pp = spec.parse_pattern(p)
+                if pp is None or pp[2]:
+                    continue
+                h = ':'.join(w.upper() + (str(rng.choice([10, 123, 4567])) if num else '') for (w, ns, opt, num) in pp[0]) + ('?' if pp[1] else '')
+            if '*' in h and not (h.startswith('*') and ':' not in h):
+                continue            # "*" inside a compound header is not a well-formed header for the lexer
+            if not h or not re.fullmatch(r'[A-Za-z0-9_:*?]+', h) or '::' in h or h.endswith(':') or h.startswith('?') or re.search(r'(^|:)[0-9_?]', h) or ('?' in h[:-1]):
+                continue
+            c = gen.scenario(256, 8, [(1, p.encode(), 'NUMS:4:-1')], [('I', h.encode() + b'\n')])
+            dcases.append(c)
+            dinfo[c] = (p, h)
+
+    def doracle(case, out):
+        if out.startswith('X') or ' X' in out or case not in dinfo:
+            return []
+        p, h = dinfo[case]
+        r = spec.accepts(p, h)
+        if r is None:
+            return []
+        ran = ' H1:' in out
+        if ran != r[0]:
+            return [('dispatch-language', 'table [%r], message %r: handler %s, the pattern language %s the header' % (p, h, 'ran' if ran else 'did not run', 'accepts' if r[0] else 'rejects'))]
+        if ran:
+            m = re.search(r' N(\d):([-\d,]*)', out)
+            want = [(v if v is not None else -1) for v in r[1]][:4]
+            got = [int(x) for x in m.group(2).split(',')][:len(want)] if m else None
+            if m is None or m.group(1) != '1' or any(w <= 2147483647 and g != w for g, w in zip(got, want)):
+                return [('dispatch-numbers', 'table [%r], message %r: SCPI_CommandNumbers gave %s, expected %s' % (p, h, m.group(0) if m else None, want))]
+        return []
+    yield {'name': 'through-parser', 'cases': dcases, 'oracle': doracle, 'nontrivial': lambda c, o: c if ' H1:' in o else None}
